@@ -246,6 +246,8 @@ MACRO_FN = {
 EXPR_WRAPPERS = {
     # str byte slicing has no Verus specification; std panics unless 1 is a char boundary
     ('parse_terms.rs::parse_term', '&s[1..]'): 'str_skip_first_byte(s)',
+    # Display of a TokenType (only used in an error message)
+    ('tokenizer.rs::token_tree_to_goal', 'token_type.to_string()'): 'token_type_to_string(token_type)',
     # `.chars().collect()` written out instead of the str_to_chars! macro (iterator adapters are outside the Verus subset)
     ('logic_var.rs::make_logic_var', 'let the_chars: Vec<_> = trimmed.chars().collect();'): 'let the_chars: Vec<char> = str_to_chars(&(trimmed));',
     # String += &str has no usable Verus specification (AddAssignSpec cannot be implemented for String);
